@@ -307,8 +307,18 @@ func (b *bodyCtx) lambda(depth int) *Expr {
 	b.seq++
 	p := fmt.Sprintf("it%d", b.seq)
 	mark := len(b.scope)
-	b.scope = append(b.scope, &varInfo{Name: p, Type: "", Kind: "other"})
 	e := &Expr{Kind: "lambda", LambdaParam: p}
+	if r.Chance(1, 3) && len(b.g.types) > 0 {
+		// explicitly typed lambda parameter: a parameter with a declared type like any other
+		ty, _, _ := b.g.pickType(b.ti)
+		if isPlain(ty) {
+			e.LambdaParamType = ty
+			b.scope = append(b.scope, &varInfo{Name: p, Type: ty, Kind: "param"})
+		}
+	}
+	if e.LambdaParamType == "" {
+		b.scope = append(b.scope, &varInfo{Name: p, Type: "", Kind: "other"})
+	}
 	if r.Bool() {
 		e.LambdaBody = b.call(depth + 1)
 	} else {
